@@ -397,8 +397,14 @@ def r6(ctx):
         got = render(rt)[:300]
         runs = _coroutine_of(ctx, rt, "ExecutionManager::run::{closure#0}")
         fw = [s_ for s_ in mir.subterms(rt) if s_[0] == "call" and mir.short(s_[1]) == "ReconnectingStream::forward_to"]
-        ok = len(runs) == 1 and [render(v) for v in runs[0][0][3]] == ["$1.as:Ok.0.0"] and len(fw) == 1 and \
-            [render(a) for a in fw[0][2]] == ["$1.as:Ok.0.1", "self.merged_channel.tx"]
+        # `X` = the initialisation result: the argument of the mapping closure, or the awaited init future of an async block
+        ok = len(runs) == 1 and len(runs[0][0][3]) == 1 and len(fw) == 1 and len(fw[0][2]) == 2
+        if ok:
+            mgr, strm = render(runs[0][0][3][0]), render(fw[0][2][0])
+            x = mgr[:-len(".as:Ok.0.0")] if mgr.endswith(".as:Ok.0.0") else None
+            is_init = x == "$1" or (x is not None and bool(_coroutine_of(ctx, mir.mk_proj(runs[0][0][3][0][1], ()) if runs[0][0][3][0][0] == "proj" else runs[0][0][3][0],
+                                                                         "ExecutionManager::init::{closure#0}")))
+            ok = x is not None and is_init and strm == x + ".as:Ok.0.1" and render(fw[0][2][1]) == "self.merged_channel.tx"
     ctx.check("ExecutionBuilder::add_execution", ok,
               "the two futures run the initialised manager itself and forward ITS stream, as it is, to the engine's merged account channel",
               got=got, key="forwards-all")
